@@ -32,8 +32,18 @@ public:
   Error run(Arena& arena, Logger* logger) override {
     Support::maybe_unused(arena, logger);
 
-    // Flush the global constant pool.
     BaseCompiler& compiler = static_cast<BaseCompiler&>(_cb);
+
+    // Flush a local constant pool that is still pending - constants requested after the last function has ended have no
+    // `end_func()` that would emit them, and the memory operands returned for them would otherwise never be resolved.
+    ConstPoolNode* local_const_pool = compiler._const_pools[uint32_t(ConstPoolScope::kLocal)];
+
+    if (local_const_pool) {
+      compiler.add_after(local_const_pool, compiler.last_node());
+      compiler._const_pools[uint32_t(ConstPoolScope::kLocal)] = nullptr;
+    }
+
+    // Flush the global constant pool.
     ConstPoolNode* global_const_pool = compiler._const_pools[uint32_t(ConstPoolScope::kGlobal)];
 
     if (global_const_pool) {
